@@ -123,6 +123,31 @@ Theorem C09_get_or_set_transparent :
 Proof. exact @get_or_set_ok. Qed.
 Print Assumptions C09_get_or_set_transparent.
 
+(* Shared caches (parallel map runs): an invocation performs two ATOMIC cache operations, one read and - on a miss -
+   one write (LRUCache/HybridCache.get/put hold the cache lock), and other clients act in between.  From ANY cache
+   satisfying the invariant, a value that is read is the user function's value, and writing the user function's value
+   re-establishes the invariant: so under every interleaving of such atomic steps each client gets what its user
+   function returns.  (Proved at this granularity; real thread schedules are sampled by the harness.) *)
+Theorem C09_map_shared_read :
+  forall body pick (C : Type) (P : policy C) (good : C -> Prop), lawful P good ->
+  forall p, wf_pipeline p ->
+  forall f kwargs c v c1, In f p -> NoDup (akeys kwargs) -> cache_inv body pick P good p c ->
+    gos_read P f kwargs c = (Some v, c1) ->
+    body (fname f) (call_args f kwargs) = Ok v /\ cache_inv body pick P good p c1.
+Proof.
+  intros body pick C P good LAW p WF f kws c v c1 Hf Hnd Hc H. split.
+  - exact (gos_read_ok body pick P good LAW p WF f kws c v c1 Hf Hnd Hc H).
+  - pose proof (gos_read_inv body pick P good LAW p f kws c Hc) as H1. now rewrite H in H1.
+Qed.
+Print Assumptions C09_map_shared_read.
+
+Theorem C09_map_shared_write :
+  forall body pick (C : Type) (P : policy C) (good : C -> Prop), lawful P good ->
+  forall p f kwargs c v, In f p -> NoDup (akeys kwargs) -> cache_inv body pick P good p c ->
+    body (fname f) (call_args f kwargs) = Ok v -> cache_inv body pick P good p (gos_write P f kwargs c v).
+Proof. exact @gos_write_inv. Qed.
+Print Assumptions C09_map_shared_write.
+
 (* ... hence a sequential map run (for the cache: a sequence of such invocations) computes the uncached results *)
 Theorem C09_map_cache_transparent :
   forall body pick (C : Type) (P : policy C) (good : C -> Prop), lawful P good ->
@@ -179,6 +204,34 @@ Print Assumptions C09_cache_transparent_refuted_update_bound.
 Theorem C09_cache_transparent_refuted_bound_in_key : exists p h, legacy_refuted p h.
 Proof. exists p_key, h_key. apply refute; vm_compute; reflexivity. Qed.
 Print Assumptions C09_cache_transparent_refuted_bound_in_key.
+
+(* (iv) map path, shared cache, the code as found (`if key in cache: return cache.get(key)`): another client's
+   perfectly valid write between the membership test and the read evicts the entry (LRU, max_size 1) and the
+   invocation returns None instead of the user function's value *)
+Theorem C09_map_shared_legacy_refuted :
+  exists p f kwargs c (interfere : lru -> lru),
+    wf_pipeline p /\ In f p /\ NoDup (akeys kwargs)
+    /\ cache_inv Sym.body Sym.pick lru_policy (fun c => nodupk (ldict c)) p c
+    /\ (forall c', cache_inv Sym.body Sym.pick lru_policy (fun c => nodupk (ldict c)) p c' ->
+                   cache_inv Sym.body Sym.pick lru_policy (fun c => nodupk (ldict c)) p (interfere c'))
+    /\ fst (fst (get_or_set_legacy Sym.body lru_policy interfere f kwargs c)) <> Sym.body (fname f) (call_args f kwargs).
+Proof.
+  set (kw1 := [(s "a", s "1")]). set (kw2 := [(s "a", s "1"); (s "b", s "2")]).
+  exists p_cut, fb, kw1, (snd (fst (get_or_set Sym.body lru_policy fb kw1 (lru_empty 1)))),
+         (fun c' => gos_write lru_policy fc kw2 c' (s "fc(a=1,b=2)")).
+  assert (WF : wf_pipeline p_cut) by (vm_compute; reflexivity).
+  assert (Hfb : In fb p_cut) by (now left). assert (Hfc : In fc p_cut) by (right; now left).
+  assert (N1 : NoDup (akeys kw1)) by (constructor; [intros []|constructor]).
+  assert (N2 : NoDup (akeys kw2)).
+  { constructor; [intros [H|[]]; vm_compute in H; discriminate|]. constructor; [intros []|constructor]. }
+  split; [exact WF|]. split; [exact Hfb|]. split; [exact N1|]. split; [|split].
+  - destruct (get_or_set Sym.body lru_policy fb kw1 (lru_empty 1)) as [[r c1] ex] eqn:E.
+    apply (get_or_set_ok Sym.body Sym.pick lru_policy _ lru_lawful p_cut WF fb kw1 (lru_empty 1) r c1 ex Hfb N1); [|exact E].
+    apply empty_cache_inv. apply lru_empty_ok.
+  - intros c' Hc'. apply (gos_write_inv Sym.body Sym.pick lru_policy _ lru_lawful p_cut fc kw2 c' _ Hfc N2 Hc'). reflexivity.
+  - vm_compute. discriminate.
+Qed.
+Print Assumptions C09_map_shared_legacy_refuted.
 
 (* ---------- non-vacuity ---------- *)
 (* the witnesses satisfy the side condition of C09_cache_transparent, and on the repaired model they are transparent
